@@ -676,6 +676,20 @@ var AltRequests = []string{
 	"{ keepers { age name } chief { age name } }",
 }
 
+// CycleRequests walk the cycles of the zoo's type graph from different ends
+// (Keeper -> Dog -> Keeper through dogs / owner, pets / owner, friend): on a
+// cold root two of them bind the same types in opposite orders.
+var CycleRequests = []string{
+	"{ keepers { dogs { name } } }",
+	"{ keepers { dogs { owner { name } } } }",
+	"{ animals { ... on Dog { owner { name } } } }",
+	"{ things { ... on Dog { owner { age } } } }",
+	"{ boss { pets { ... on Dog { owner { friend { name } } } } } }",
+	"{ animals { name ... on Dog { barks owner { dogs { name } } } } }",
+	"{ keepers { friend { dogs { barks } } } }",
+	"{ things { ... on Keeper { dogs { owner { name } } } ... on Dog { owner { name } } } }",
+}
+
 // DrawMixed draws the raw / wrapped assignment of a mixed root.
 func DrawMixed(t *tape.Tape, q *Query) {
 	q.Raw = map[string]bool{}
